@@ -236,6 +236,10 @@ structure Mon where
   paidOut : Ledger := []
   /-- the (legacy) start state was solvent -/
   solvent0 : Bool := true
+  /-- version of the legacy layout the trace started from (`none` = fresh instantiation) -/
+  legacyVer : Option (Nat × Nat × Nat) := none
+  /-- no op has succeeded since the legacy state was written -/
+  legacyUntouched : Bool := false
 
 /-- `ch.<id>` → entries `(denom, outstanding, total_sent)`; `none` if the channel is unknown -/
 def obsChan (o : Args) (c : String) : Option (List (String × Nat × Nat)) :=
@@ -361,7 +365,30 @@ def monitorOp (mu : Mon) (prev : Args) (toks : List String) (implOk : Bool) (out
           [mk "C11" "C11/bad-packet-released" s!"ack={ackS}"] else []
        else [])
     -- ---------- C12
-    let f12 := if !mu.inited then [] else
+    let mu := if kind == "inst_legacy" then
+        let v := ((a.str "ver").splitOn "-").headD ""
+        { mu with legacyUntouched := true,
+                  legacyVer := match v.splitOn "." with
+                               | [x, y, z] => some (x.toNat?.getD 0, y.toNat?.getD 0, z.toNat?.getD 0)
+                               | _ => none }
+      else if kind == "inst" then { mu with legacyVer := none } else mu
+    let untouched := mu.legacyUntouched
+    let mu := if kind != "inst_legacy" && implOk then { mu with legacyUntouched := false } else mu
+    -- C12, upgrade path: a contract stored at a version ≤ 0.13.0 (tokens in flight were not yet booked
+    -- per channel) comes out of `migrate` with every outstanding balance equal to what it really holds
+    let fmig := match mu.legacyVer with
+      | some (x, y, z) =>
+        if kind == "migrate" && implOk && untouched && (x < 0 + 1 && (y < 13 || (y == 13 && z == 0))) then
+          pairs.filterMap fun k =>
+            let o := obsOut cur k.1 k.2
+            let h := ((obsHold cur).find? (fun p => p.1 == k.2)).map (·.2)
+            match h with
+            | some hv => if o == hv then none else
+                some (mk "C12" "C12/migrate-not-reconciled" s!"chan={k.1} denom={k.2} outstanding={o} holdings={hv}")
+            | none => none
+        else []
+      | none => []
+    let f12 := if !mu.inited then [] else fmig ++
       -- outstanding = sent − failed-or-timed-out − redeemed, total_sent = sent
       (pairs.filterMap fun k =>
         let o := obsOut cur k.1 k.2
